@@ -479,7 +479,7 @@ def keyOf (j : Json) : Option (Item → Except Exc String) :=
   match str? j with
   | some "parity" => some (fun v => match v.data with
       | .int i => .ok (if i % 2 == 0 then "k0" else "k1")
-      | .other _ _ _ => .error .unmodelled
+      | .other "float" _ _ => .error .unmodelled
       | _ => .error .typeError)
   | some "cls" => some (fun v => .ok (dataCls v.data))
   | some "ctxn" => some (fun v => match lookup v.dict "n" with
